@@ -155,6 +155,12 @@ func c07Scenarios(thorough bool) []*explore.Scenario {
 		scs = append(scs, &explore.Scenario{Name: fmt.Sprintf("BK-Compact-%d", i), Base: "S2", Cfg: "ROLL",
 			Threads: []explore.ThreadProg{{op(explore.Backup, "")}, w, {op(explore.Compact, "")}}, Bound: -1, FSYield: true, YieldDirOnly: true, Record: true})
 	}
+	// F8: readers (and a writer) directly on the repository's fs.OS / fs.OSMMap, every file-system call a scheduling
+	// point: records of one segment file and buckets of one index file read by two threads under the shared lock
+	for _, kind := range []string{"os", "osmmap"} {
+		scs = append(scs, &explore.Scenario{Name: "RFS-RR-" + kind, Base: "CH", Cfg: "BIGC", Threads: []explore.ThreadProg{{op(explore.Get, "h0"), op(explore.Has, "o0")}, {op(explore.Get, "h1")}}, Bound: 3, WrapFS: kind})
+		scs = append(scs, &explore.Scenario{Name: "RFS-RW-" + kind, Base: "CH", Cfg: "BIGC", Threads: []explore.ThreadProg{{op(explore.Get, "h0"), op(explore.Get, "o0")}, {op(explore.Put, "o0")}}, Bound: 3, WrapFS: kind})
+	}
 	// F5: sync-after-every-write mode (Put/Delete end with an fsync inside their critical section) next to Compact and readers
 	for i, w := range []explore.ThreadProg{{op(explore.Put, "e"), op(explore.Put, "a")}, {op(explore.Delete, "a"), op(explore.Put, "n")}, {op(explore.Put, "b"), op(explore.Delete, "e")}} {
 		for j, rd := range [][]explore.Op{{op(explore.Get, "e"), op(explore.Get, "a")}, {op(explore.Has, "b"), op(explore.Count, "")}} {
@@ -263,6 +269,7 @@ func init() {
 		Assumptions: []string{"scheduling points are the operations of sync.Mutex/RWMutex/WaitGroup (shim), which is sufficient provided accesses outside critical sections are race-free (C10's free-running -race pass)",
 			"thread programs have <= 2 operations; 3-4 threads"},
 		QuickBudget:   100 * time.Second,
+		ASLimitMB:     1 << 20, // fs.OSMMap reserves a gigabyte of address space per open file
 		ThorBudget:    25 * time.Minute,
 		Run:           runC07,
 		EvalKey:       "executions",
